@@ -2,6 +2,7 @@
 containers one-to-one, attributes carried over; docutils vs Sphinx back end."""
 from __future__ import annotations
 
+import io
 import random
 import time
 
@@ -208,6 +209,45 @@ def check_doc(col, text, commonmark):
     compare(col, text, commonmark, doc, "docutils", case)
 
 
+DESTS = ["other.md", "Other.md", "API/Reference.md", "./sub/File.MD#Sec", "../Up/x.md", "https://Example.COM/A?b=C", "mailto:Me@X.org",
+         "path/with%20space.md", "#Local-Target", "docs/a_b-c.Md", "x.txt", "Caf\u00e9.md", "a/b/../C.md"]
+
+
+def check_destinations(col, commonmark):
+    """Link destinations are carried over unchanged: the doctree straight out of the renderer (before docutils resolves or
+    reports references) against the href of the markdown-it link token, for destination spellings with upper case, dots,
+    fragments, percent-encoding and non-ASCII characters."""
+    from docutils import nodes
+    from docutils.frontend import get_default_settings
+    from docutils.utils import new_document
+
+    from myst_parser.parsers.docutils_ import Parser
+
+    for i, dest in enumerate(DESTS):
+        text = f"para [text {i}]({dest}) end\n"
+        case = {"text": text, "commonmark_only": commonmark, "pre_transform": True}
+        col.case(("dest", dest, commonmark))
+        try:
+            settings = get_default_settings(Parser)
+            settings.myst_commonmark_only = commonmark
+            settings.warning_stream = io.StringIO()
+            doc = new_document("<src>/index.md", settings)
+            Parser().parse(text, doc)
+        except Exception as exc:  # noqa: BLE001
+            col.fail("C02.parse", case, f"{type(exc).__name__}: {exc}")
+            continue
+        hrefs = [t.attrGet("href") for tok in tokens_of(text, commonmark) for t in ([tok] + (tok.children or [])) if t.type == "link_open"]
+        from markdown_it import MarkdownIt
+
+        want = [MarkdownIt().normalizeLinkText(h) for h in hrefs]
+        got = []
+        for n in doc.findall(nodes.reference):
+            got.append(n.get("refuri") if n.get("refuri") is not None else n.get("refname", n.get("reftarget")))
+        norm = [MarkdownIt().normalizeLinkText(g) if isinstance(g, str) else g for g in got]
+        if norm != want:
+            col.fail("C02.link-destination", case, f"docutils (before transforms): link destinations {got!r}, source has {hrefs!r}")
+
+
 def check_sphinx(col, texts):
     from harness.sphinx_util import build
 
@@ -245,6 +285,9 @@ def run(tier, seed, extra):
             cnt += 1
     import itertools
 
+    for cm in (False, True):
+        check_destinations(col, cm)
+        cnt += len(DESTS)
     for levels in itertools.product((1, 2, 3, 4), repeat=5 if tier == "quick" else 6):
         t = "".join("#" * lv + f" H{i}\n\npara {i}\n\n" for i, lv in enumerate(levels))
         col.case(("levels", levels))
@@ -267,6 +310,8 @@ def run(tier, seed, extra):
 
 
 def replay(col, case, check):
+    if case.get("pre_transform"):
+        return check_destinations(col, case.get("commonmark_only", False))
     if case.get("sphinx"):
         return check_sphinx(col, [case["text"][len("# T\n\n"):]])
     check_doc(col, case["text"], case.get("commonmark_only", False))
